@@ -21,7 +21,7 @@ OtherSingles == [D EXCEPT !.mjq = {"any"}, !.minc = {"none"},
                           !.okinds = {"schedule", "validating", "mutating", "conversion", "onStartup"},
                           !.onamed = {TRUE, FALSE}, !.ogrp = {"", "g1", "g2"}, !.oinc = {"none", "main", "aux", "both"},
                           !.initsA = {{"a1"}}, !.initsB = {{"b1"}},
-                          !.trigs = {"StartUp", "Tick", "Request"}]
+                          !.trigs = {"StartUp", "Tick", "Request", "BootTick", "BootRequest"}]
 (* S3: arrays of two contexts (kubernetes + schedule mixed, Synchronization first) *)
 Pairs == [D EXCEPT !.mjq = {"any"}, !.minc = {"none", "self"}, !.agrp = {"", "g1"}, !.akeep = {SeedKeep},
                    !.okinds = {"none", "schedule"}, !.ogrp = {"", "g1"},
